@@ -161,15 +161,16 @@ PROPS.update({
                 assumptions=STORE_ASSUME),
     "C20": dict(crate="store", title="A failed disk operation is reported and leaves the store consistent",
                 harnesses=[H("c20_m0_k00", timeout=900, rules=STORE_RULES), H("c20_m0_k01", timeout=900, rules=STORE_RULES), H("c20_m0w_k00", timeout=900, rules=STORE_RULES),
-                           H("c20_m5_k01", timeout=1200, rules=STORE_RULES), H("c20_m4_k09", timeout=1500, mem_gb=20, rules=STORE_RULES), H("c20_m3_k09", timeout=1500, mem_gb=20, rules=STORE_RULES), H("c20_m3_k02", timeout=1500, mem_gb=20, rules=STORE_RULES), H("c20_m5_k00", tier="thorough", timeout=1200, rules=STORE_RULES), H("c20_m5w_k00", tier="thorough", timeout=1200, rules=STORE_RULES)]
+                           H("c20_m5_k01", timeout=1200, rules=STORE_RULES), H("c20_r_k03", timeout=1200, rules=STORE_RULES, covers=["the fault was injected into the recovery"]), H("c20_m4_k09", timeout=1500, mem_gb=20, rules=STORE_RULES), H("c20_m3_k09", timeout=1500, mem_gb=20, rules=STORE_RULES), H("c20_m3_k02", timeout=1500, mem_gb=20, rules=STORE_RULES), H("c20_m5_k00", tier="thorough", timeout=1200, rules=STORE_RULES), H("c20_m5w_k00", tier="thorough", timeout=1200, rules=STORE_RULES)]
                 + [H("c20_m3_k%02d" % k, tier="thorough", timeout=1800, mem_gb=20, rules=STORE_RULES) for k in range(0, 10) if k not in (2, 9)]
                 + [H("c20_m4_k%02d" % k, tier="thorough", timeout=1800, mem_gb=20, rules=STORE_RULES) for k in range(0, 10) if k != 9]
+                + [H("c20_r_k%02d" % k, tier="thorough", timeout=1200, rules=STORE_RULES) for k in range(0, 10) if k != 3]
                 + [H("c20_m1_k%02d" % k, tier="thorough", timeout=2400, mem_gb=24, rules=STORE_RULES, covers=["the fault was injected"]) for k in range(0, 4)]
                 + [H("c20_m1w_k%02d" % k, tier="thorough", timeout=2400, mem_gb=24, rules=STORE_RULES, covers=["the fault was injected"]) for k in (0, 2)]
                 + [H("c20_m2_k%02d" % k, tier="thorough", timeout=2400, mem_gb=24, rules=STORE_RULES) for k in range(0, 16)]
                 + [H("c20_a_k%02d" % k, tier="thorough", timeout=3600, mem_gb=28, rules=STORE_RULES) for k in range(0, 8)]
                 + [H("c20_b_k%02d" % k, tier="thorough", timeout=3600, mem_gb=28, rules=STORE_RULES) for k in range(0, 18)],
-                bounds={"shapes": "M3: a value on disk; merge of everything with the fault at file-system call k of the merge (k = 0..9: stat, creation of the merge data / hint file, open and mmap of the source, write of the data / hint entry, removal of the source hint / data file, creation of the next active file), then a fault-free put of the same key read back in-process and after a restart. M4: the same with the active file among the merged files. M5: put a failing at its write / at the creation of the next file / as a short write, then an acknowledged delete of a, restart (the key must stay deleted). After every restart: no file of either kind carries an id >= the id the restarted store writes into. M0 (quick): empty directory, rollover on every write; put a with the fault at its write / at the creation of the next file / as a short write, then a fault-free put b read back in-process. M1: put a, put b with reads after each and a restart. M2: two values on disk; merge of everything, put b, restart. A: rollover on every write; put a, put b, del a, put a. B: values on disk; del a, merge of everything, put b (A, B: thorough only - an injected error travels through niche-encoded Results in the real code whose discriminant CBMC does not fold, so every later step is explored twice; 25+ min and > 14 GB per instance). One harness instance per CONCRETE failing call k (counted after the open: create, write, fsync, unlink, stat, open, mmap, read - whatever the k-th call is) and failure mode (error without effect; for writes also: short write of 3 bytes, then an error); SYMBOLIC: every value byte. Followed by a restart", "outside": "faults during the initial recovery; more than one fault; entries larger than the write buffer"},
+                bounds={"shapes": "M3: a value on disk; merge of everything with the fault at file-system call k of the merge (k = 0..9: stat, creation of the merge data / hint file, open and mmap of the source, write of the data / hint entry, removal of the source hint / data file, creation of the next active file), then a fault-free put of the same key read back in-process and after a restart. M4: the same with the active file among the merged files. M5: put a failing at its write / at the creation of the next file / as a short write, then an acknowledged delete of a, restart (the key must stay deleted). After every restart: no file of either kind carries an id >= the id the restarted store writes into. R: a fault at file-system call k (0..9) of the start-up scan of a directory with a hinted merge output and a newer file holding an overwrite and a tombstone: the open reports an error, changes nothing, and a second fault-free open reads every key correctly. M0 (quick): empty directory, rollover on every write; put a with the fault at its write / at the creation of the next file / as a short write, then a fault-free put b read back in-process. M1: put a, put b with reads after each and a restart. M2: two values on disk; merge of everything, put b, restart. A: rollover on every write; put a, put b, del a, put a. B: values on disk; del a, merge of everything, put b (A, B: thorough only - an injected error travels through niche-encoded Results in the real code whose discriminant CBMC does not fold, so every later step is explored twice; 25+ min and > 14 GB per instance). One harness instance per CONCRETE failing call k (counted after the open: create, write, fsync, unlink, stat, open, mmap, read - whatever the k-th call is) and failure mode (error without effect; for writes also: short write of 3 bytes, then an error); SYMBOLIC: every value byte. Followed by a restart", "outside": "more than one fault; entries larger than the write buffer; a fault at the creation of the first active file in Bitcask::open (not part of rebuild_storage)"},
                 assumptions=STORE_ASSUME),
     "C17": dict(crate="store", title="A closed store rejects all use (REDUCED: closed-handle clause only)",
                 harnesses=[H("c17_closed", timeout=1500, rules=STORE_RULES)],
